@@ -3,6 +3,7 @@ module rvharness
 go 1.19
 
 require (
+	github.com/ethereum/go-ethereum v1.13.15
 	github.com/leprosus/golang-p2p v1.3.11
 	github.com/my-cloud/ruthenium v0.0.0
 )
@@ -13,7 +14,6 @@ require (
 	github.com/btcsuite/btcd/btcutil v1.1.5 // indirect
 	github.com/btcsuite/btcd/chaincfg/chainhash v1.1.0 // indirect
 	github.com/decred/dcrd/dcrec/secp256k1/v4 v4.0.1 // indirect
-	github.com/ethereum/go-ethereum v1.13.15 // indirect
 	github.com/holiman/uint256 v1.2.4 // indirect
 	github.com/tyler-smith/go-bip39 v1.1.0 // indirect
 	golang.org/x/crypto v0.21.0 // indirect
